@@ -388,7 +388,7 @@ pub fn meta() -> CheckMeta {
         level: "exploration",
         rule: "history = 1-3 sessions in ONE fresh sub-process (the default scheme is process-global), each a real client Session (initial scheme = the built-in default) against a raw scripted server on a write-recording MemPipe; steps: data packets of sizes placed around the schemes' sizes, pushes of one of 4 generated schemes (1-4 per session, incl. re-pushing the initial one), unparsable pushes (no stop, invalid UTF-8, non-numeric / negative stop); variant 'PaddingFactory::default() already used' / 'not used'. Oracle: every packet k after a processed push is accepted by the reference acceptor for line k of the pushed scheme (unpadded at/after its stop); unparsable pushes change nothing and do not end the session. Client level: real Client against a scripted TLS peer that pushes scheme B on the first session; later sessions must announce md5(B). distinct_nontrivial = distinct histories. Client level, concurrent: the peer holds back the TLS handshake of session 2, pushes a scheme on session 1, lets the handshake continue: both requests must complete and session 3 must announce the pushed scheme. Unparsable pushes also come long (60-400 bytes) with 2-, 3- and 4-byte characters starting at every byte offset and as runs of 0xFF; at the end of a session that saw one, the session must still answer a keep-alive request.".into(),
         assumptions: vec!["pushes are processed at quiescent points (1 virtual second after the frame was written)".into()],
-        floors: vec![("packets_checked_after_a_push", 500), ("pushes", 300), ("histories_default_used_before", 20), ("histories_default_not_used_before", 20), ("client_level_sessions", 6), ("client_level_md5_announcements_checked", 4), ("client_level_pushes_during_a_dial", 2)],
+        floors: vec![("packets_checked_after_a_push", 500), ("pushes", 300), ("histories_default_used_before", 20), ("histories_default_not_used_before", 20), ("client_level_sessions", 6), ("client_level_md5_announcements_checked", 4), ("client_level_pushes_during_a_dial", 2), ("pushes_while_a_client_write_was_parked", 100)],
         exhaustive: false,
     }
 }
